@@ -1789,3 +1789,131 @@ func ruleLogQueryAnswered(e *Engine, r *Report) {
 	}
 	r.floor("TBL-logquery-answered", n, 5)
 }
+
+// ruleChunkDataLoad (C15): on the sending side a chunk carries exactly the
+// bytes of its slot of the file: the read offset is FileChunkId times the
+// chunk size the splitter used, the data is returned only when the read
+// delivered ChunkSize bytes, and every non-witness chunk is loaded before it
+// is sent.
+func ruleChunkDataLoad(e *Engine, r *Report) {
+	ld := r.need("internal/transport.loadChunkData")
+	sc := r.need("(*internal/transport.job).sendChunks")
+	send := r.need("(*internal/transport.job).sendChunk")
+	fid := r.needField("raftpb", "Chunk", "FileChunkId")
+	csz := r.needField("raftpb", "Chunk", "ChunkSize")
+	dataF := r.needField("raftpb", "Chunk", "Data")
+	wit := r.needField("raftpb", "Chunk", "Witness")
+	if ld == nil || sc == nil || send == nil || fid == nil || csz == nil || dataF == nil || wit == nil {
+		return
+	}
+	isChunkSize := func(v ssa.Value) bool { g, ok := v.(*ssa.Global); return ok && g.Name() == "snapshotChunkSize" }
+	n := 0
+	forEachCall(ld, func(s ssa.CallInstruction) {
+		c := s.Common()
+		callee := c.StaticCallee()
+		isReadAt := (c.IsInvoke() && c.Method.Name() == "ReadAt") || (callee != nil && (callee.Name() == "readAt" || callee.Name() == "ReadAt"))
+		if !isReadAt || len(c.Args) < 2 {
+			return
+		}
+		n++
+		off := c.Args[len(c.Args)-1]
+		okOff := e.dependsOn(off, fieldV(fid), 0) && e.dependsOn(off, isChunkSize, 0)
+		r.check(okOff, "DEP-chunk-data-load", "read offset in loadChunkData is FileChunkId x chunk size", e.ipos(s),
+			"the slot the splitter assigned to the chunk", "the chunk data is read from an offset that is not derived from the chunk's FileChunkId and the chunk size ("+e.describeValue(off)+"): the receiver reassembles a file with misplaced or repeated content")
+	})
+	r.floor("DEP-chunk-data-load", n, 1)
+	// data returned only after a full read
+	forEachInstr(ld, func(in ssa.Instruction) {
+		ret, ok := in.(*ssa.Return)
+		if !ok || len(ret.Results) < 2 || in.Block() == ld.Recover {
+			return
+		}
+		if isNilConst(retOperand(ret, 0)) {
+			return
+		}
+		r.guard("DEP-chunk-data-load", "loadChunkData returns data", in,
+			reqCmp("bytes read == Chunk.ChunkSize", "==", anyV(), fieldV(csz)))
+	})
+	// every non-witness chunk is loaded before it is sent
+	isLoad := func(in ssa.Instruction) bool {
+		st, ok := in.(*ssa.Store)
+		if !ok {
+			return false
+		}
+		f, _, ok := fieldOfAddr(st.Addr)
+		return ok && f == dataF && e.dependsOn(st.Val, e.callV(ld), 1)
+	}
+	for _, s := range e.SitesIn(sc, send) {
+		res := e.pathUnless(sc, nil, func(in ssa.Instruction) bool { return in == s.(ssa.Instruction) }, isLoad, reqBool("witness chunk", fieldV(wit), true))
+		r.check(!res.Found, "DEP-chunk-data-load", "sendChunks loads the data of every non-witness chunk before sending it", e.ipos(s),
+			"Chunk.Data = loadChunkData(..) on every path to the send", "a non-witness chunk can be sent without its data having been loaded from the snapshot file", res.Trace(e)...)
+	}
+}
+
+// ruleResultTruthfulAPI (C12, C01): what the synchronous API reports is what
+// the request's terminal code says: each RequestResult predicate answers true
+// only for its own code, and getRequestState returns a nil error (success)
+// only for a Completed result and each error only for the code it names.
+func ruleResultTruthfulAPI(e *Engine, r *Report) {
+	code := r.needField("dragonboat", "RequestResult", "code")
+	if code == nil {
+		return
+	}
+	n := 0
+	for _, c := range [][2]string{{"Completed", "requestCompleted"}, {"Timeout", "requestTimeout"}, {"Terminated", "requestTerminated"}, {"Rejected", "requestRejected"}, {"Dropped", "requestDropped"}, {"Aborted", "requestAborted"}} {
+		fn := r.need("(*dragonboat.RequestResult)." + c[0])
+		k := r.needConst("dragonboat", c[1])
+		if fn == nil || k == nil {
+			continue
+		}
+		n++
+		r.returnsOnlyUnder("GD-result-truthful", "RequestResult."+c[0], fn, 0, true, nil,
+			reqCmp("code == "+c[1], "==", fieldV(code), constV(k)))
+	}
+	r.floor("GD-result-truthful", n, 6)
+	grs := r.need("dragonboat.getRequestState")
+	if grs == nil {
+		return
+	}
+	pred := func(name string) VM {
+		f := e.Func("(*dragonboat.RequestResult)." + name)
+		return e.callV(f)
+	}
+	isGlobal := func(name string) func(ssa.Value) bool {
+		return func(v ssa.Value) bool {
+			u, ok := stripConv(v).(*ssa.UnOp)
+			if !ok {
+				return false
+			}
+			g, ok := u.X.(*ssa.Global)
+			return ok && g.Name() == name
+		}
+	}
+	ctxErr := func(v ssa.Value) bool {
+		c, ok := v.(*ssa.Call)
+		return ok && c.Call.IsInvoke() && c.Call.Method.Name() == "Err"
+	}
+	forEachInstr(grs, func(in ssa.Instruction) {
+		ret, ok := in.(*ssa.Return)
+		if !ok || len(ret.Results) < 2 || in.Block() == grs.Recover {
+			return
+		}
+		ev := retOperand(ret, 1)
+		switch {
+		case isNilConst(ev):
+			r.guard("GD-result-truthful", "getRequestState returns success", in, reqBool("the result is Completed", pred("Completed"), true))
+		default:
+			for _, m := range [][2]string{{"ErrRejected", "Rejected"}, {"ErrShardClosed", "Terminated"}, {"ErrShardNotReady", "Dropped"}, {"ErrAborted", "Aborted"}} {
+				if isGlobal(m[0])(ev) {
+					r.guard("GD-result-truthful", "getRequestState returns "+m[0], in, reqBool("the result is "+m[1], pred(m[1]), true))
+				}
+			}
+			if isGlobal("ErrTimeout")(ev) {
+				r.guard("GD-result-truthful", "getRequestState returns ErrTimeout", in,
+					reqAny("the result is Timeout, or the caller's context expired",
+						reqBool("", pred("Timeout"), true),
+						reqCmp("", "==", ctxErr, anyV())))
+			}
+		}
+	})
+}
